@@ -23,7 +23,7 @@ def wide_cases(rng, n):
         elif k < 0.7: c = rng.choice([1, -1]) * rng.getrandbits(rng.randint(1, 4 * nw))
         else: c = rng.randint(lo - (1 << nw), hi + (1 << nw))
         raw = rng.random() < 0.5
-        nf = 0 if raw else rng.choice([0, 1, nw // 2, nw - 1, nw])
+        nf = 0 if raw else rng.choice([0, 1, nw // 2, nw - 1, nw, -1, -3, -8])
         cases.append({'s': s, 'nw': nw, 'nf': nf, 'raw': raw, 'c': c, 'r': rng.choice(RMODES), 'route': rng.choice(['ctor', 'call', 'set_val'])})
     return cases
 
@@ -43,8 +43,8 @@ def run_wide(cases, res):
         except Exception as e:
             outs_impl.append({'exc': lib.exc_name(e), 'msg': str(e)[:200]})
         # spec: the scaled integer wrapped
-        scaled = c['c'] if c['raw'] else c['c'] * (1 << c['nf'])
-        reqs.append([4] + e_fmt(c['s'], c['nw'], 0) + [0, 1] + e_list([Fraction(scaled)], e_dy))
+        scaled = Fraction(c['c']) if c['raw'] else Fraction(c['c']) * Fraction(2) ** c['nf']
+        reqs.append([4] + e_fmt(c['s'], c['nw'], 0) + [RMODES.index(c['r']), 1] + e_list([scaled], e_dy))
         reqs.append([10] + e_fmt(c['s'], c['nw'], c['nf']) + [RMODES.index(c['r']), 1, 1 if c['raw'] else 0, 3] + e_list([c['c']], lambda z: [0, z]) + [0])
     outs = model_call(reqs)
     for i, c in enumerate(cases):
@@ -52,7 +52,7 @@ def run_wide(cases, res):
         mo = S.read_model_store(outs[2 * i + 1])
         io = outs_impl[i]
         lo, hi = S.fmt_bounds(c['s'], c['nw'])
-        scaled = c['c'] if c['raw'] else c['c'] * (1 << c['nf'])
+        scaled = Fraction(c['c']) if c['raw'] else Fraction(c['c']) * Fraction(2) ** c['nf']
         res.count('D:wide-words-python-ints', key=tuple(sorted(c.items())), nontrivial=not (lo <= scaled <= hi))
         res.sample(c)
         if 'exc' in io:
@@ -61,6 +61,7 @@ def run_wide(cases, res):
             res.fail(c, 'C03: wide-word wrap is not the in-range residue of the input', expected=want, got=io['codes']); continue
         if io['status'][:2] != (so, su):
             res.fail(c, 'C03: overflow/underflow flags of a wide-word wrap are wrong', expected=(so, su), got=io['status'][:2]); continue
+        if c['nf'] < 0 and abs(c['c']) >= 2**53: continue      # exact-rational scaling of big integers by 2^n_frac < 1: outside the modelled domain
         if mo['kind'] != 'ok' or mo['codes'] != io['codes']:
             res.fail(c, 'model object path disagrees with the implementation although Spec agrees', expected=mo, got=io['codes']); res.failures[-1]['no_input'] = True
 
@@ -95,6 +96,42 @@ def run_period(cases, res):
             res.fail({k: (str(v) if isinstance(v, Fraction) else v) for k, v in c.items()},
                      'C03: shifting the input by a multiple of 2^(n_word-n_frac) changed the stored code', expected=a, got=b)
 
+def widesrc_cases(rng, n):
+    cases = []
+    for _ in range(n):
+        snw = rng.choice([64, 64, 72, 128]); snf = rng.choice([0, 16, 32, 48])
+        slo, shi = S.fmt_bounds(True, snw)
+        code = rng.choice([rng.getrandbits(rng.randint(40, 62)), -rng.getrandbits(rng.randint(40, 62)), (1 << 61) + 1, -(1 << 61) - 3, rng.getrandbits(62) | 1])
+        s, nw, nf = S.random_format(rng)
+        cases.append({'src': [True, snw, snf], 'code': code, 's': s, 'nw': nw, 'nf': nf, 'r': rng.choice(RMODES), 'route': rng.choice(['ctor', 'call', 'set_val', 'setitem', 'like_kw'])})
+    return cases
+
+def run_widesrc(cases, res):
+    """a value held exactly by a 64-bit or wider object, copied into a core-domain word under wrap: the low bits must survive"""
+    fx = lib.impl(); import numpy as np
+    pend = []; reqs = []
+    for c in cases:
+        try:
+            src = fx.Fxp(None, *c['src']); src.set_val(c['code'], raw=True)
+            kw = dict(rounding=c['r'], overflow='wrap')
+            if c['route'] == 'ctor': d = fx.Fxp(src, c['s'], c['nw'], c['nf'], **kw)
+            elif c['route'] == 'like_kw': d = fx.Fxp(src, like=fx.Fxp(None, c['s'], c['nw'], c['nf'], **kw))
+            elif c['route'] == 'setitem':
+                d = fx.Fxp([0, 0], c['s'], c['nw'], c['nf'], **kw); d[0] = src
+            else:
+                d = fx.Fxp(None, c['s'], c['nw'], c['nf'], **kw)
+                (d if c['route'] == 'call' else d.set_val)(src)
+            got = lib.codes_of(d)[0]
+        except Exception as e:
+            res.fail(c, 'C03: copying a wide object into a narrower wrap word raised %s' % lib.exc_name(e), got=str(e)[:200]); continue
+        pend.append((c, got)); reqs.append([4] + e_fmt(c['s'], c['nw'], c['nf']) + [RMODES.index(c['r']), 1] + e_list([Fraction(c['code'], 1 << c['src'][2])], e_dy))
+    for (c, got), out in zip(pend, model_call(reqs)):
+        rd = Reader(out); want = rd.lst(rd.z)[0]
+        res.count('F:wide-source-into-narrow-word', key=repr(c), nontrivial=True)
+        res.sample(c)
+        if got != want:
+            res.fail(c, 'C03: a value held by a 64-bit or wider object, stored into a narrower word under wrap, is not the residue of the exact value', expected=want, got=got)
+
 def register_cases(rng, n):
     cases = []
     for _ in range(n):
@@ -107,7 +144,12 @@ def register_cases(rng, n):
             op = rng.choice(['+', '-', '*'])
             c = rng.choice([lo, hi, lo + 1, hi - 1, 1, -1 if s else 1, rng.randint(lo, hi), rng.randint(lo, hi)])
             steps.append((op, c))
-        cases.append({'s': s, 'nw': nw, 'nf': nf, 'init': rng.randint(lo, hi), 'steps': steps})
+        case = {'s': s, 'nw': nw, 'nf': nf, 'init': rng.randint(lo, hi), 'steps': steps}
+        if rng.random() < 0.4:      # the second operand in another format (more fractional bits: they are dropped by the register)
+            nwy = rng.choice([nw, max(2, nw - 3), min(nw + 1, 256)]); nfy = nf + rng.choice([1, 3, rng.randint(1, 8)])
+            ly, hy = S.fmt_bounds(s, nwy)
+            case['yfmt'] = [s, nwy, nfy]; case['steps'] = [(op, rng.choice([ly, hy, 1, rng.randint(ly, hy)])) for op, _ in steps]
+        cases.append(case)
     return cases
 
 def run_register(cases, res):
@@ -121,9 +163,10 @@ def run_register(cases, res):
             codes_seq = []
             reqs = []
             for op, yc in c['steps']:
-                y = fx.Fxp(yc, s, nw, nf, raw=True, overflow='wrap', rounding='floor')
+                ys, nwy, nfy = c.get('yfmt', [s, nw, nf])
+                y = fx.Fxp(yc, ys, nwy, nfy, raw=True, overflow='wrap', rounding='floor')
                 cur = Fraction(lib.codes_of(acc)[0], 1 << nf)
-                yv = Fraction(yc, 1 << nf)
+                yv = Fraction(yc, 1 << nfy)
                 ex = cur + yv if op == '+' else (cur - yv if op == '-' else cur * yv)
                 acc = acc + y if op == '+' else (acc - y if op == '-' else acc * y)
                 codes_seq.append(lib.codes_of(acc)[0])
@@ -164,6 +207,7 @@ def shard(shard, nshards, rng, tier, extra):
     run_period(period_cases(rng, (1500 if tier == 'quick' else 40000) // nshards), res)
     run_wide(wide_cases(rng, (2500 if tier == 'quick' else 60000) // nshards), res)
     run_register(register_cases(rng, (1200 if tier == 'quick' else 30000) // nshards), res)
+    run_widesrc(widesrc_cases(rng, (600 if tier == 'quick' else 15000) // nshards), res)
     res.exhaustive = True
     return res
 
@@ -174,7 +218,7 @@ def classify(fl):
     """known finding 'mul-rescale-float': the first wrong step is a product whose exact integer value needs more than
     53 bits and which is rescaled by a negative power of two (n_frac > 0 with sizing 'same')"""
     c = fl['case']
-    if 'steps' not in c or c['nf'] <= 0 or not isinstance(fl.get('expected'), list) or not isinstance(fl.get('got'), list): return None
+    if 'steps' not in c or 'yfmt' in c or c['nf'] <= 0 or not isinstance(fl.get('expected'), list) or not isinstance(fl.get('got'), list): return None
     exp, got = fl['expected'], fl['got']
     prev = c['init']
     for i, (op, yc) in enumerate(c['steps']):
@@ -188,6 +232,7 @@ def replay(payload):
     c = payload['case']; res = Result()
     if 'vals' in c: check_store_cases([c], res, 'replay', 'C03')
     elif 'steps' in c: c['steps'] = [tuple(t) for t in c['steps']]; run_register([c], res)
+    elif 'src' in c: run_widesrc([c], res)
     elif 'v2' in c:
         c['v'] = Fraction(c['v']); c['v2'] = Fraction(c['v2']); run_period([c], res)
     else: run_wide([c], res)
